@@ -120,6 +120,11 @@ def _initial(rng):
     r = rng.random()
     if r < 0.08:
         return 0
+    if r < 0.12:
+        # "park instead of retrying": `new(Duration::MAX, f)` and initial intervals around 2^63 / 2^64 s, where every
+        # conversion between Duration and f64 seconds is at (or over) the top of its range
+        return rng.choice([DUR_MAX, DUR_MAX, DUR_MAX - 1, DUR_MAX - 999999999, (2 ** 64 - 1) * SEC, 2 ** 63 * SEC,
+                           2 ** 63 * SEC + 1, 2 ** 62 * SEC + 12345, 3 * 2 ** 62 * SEC])
     if r < 0.55:
         return rng.choice([1, 999, 10 ** 6, 10 ** 8, 10 ** 8, 250 * 10 ** 6, SEC, 60 * SEC, 3600 * SEC, 86400 * SEC, 7 * 86400 * SEC])
     return int(10 ** rng.uniform(0, 15))
@@ -416,6 +421,10 @@ def transitions(case, lines, meta=None):
             cache[key] = Ideal(initial, num, den, cap)
         idl = cache[key]
         c = DUR_MAX if cap is None else cap
+        if initial >= 2 ** 62 * SEC:
+            tags.append("huge-initial")
+            if kind in JITTER_KINDS:
+                tags.append("huge-initial-jittered")
         if initial == 0:
             tags.append("zero-initial")
         elif idl.at(a) >= c:
@@ -523,13 +532,13 @@ SPECS = {
                             "chain-max_interval-before-multiplier", "chain-max_interval-before-smaller-multiplier",
                             "chain-max_interval-before-larger-multiplier", "below-cap-where-a-stale-setting-is-saturated",
                             "at-cap-where-a-stale-setting-is-not", "multiplier-below-2", "cap-within-1ns-of-uncapped-value", "product-exactly-2^64s", "below-cap", "at-cap", "first-capped-attempt", "saturated-duration-max",
-                            "zero-initial", "cap-at-or-below-initial", "attempt>i32max", "attempt=usize-max", "multiplier-one",
+                            "zero-initial", "huge-initial", "huge-initial-jittered", "cap-at-or-below-initial", "attempt>i32max", "attempt=usize-max", "multiplier-one",
                             "e2e-outage", "e2e-outage>=1h"],
         "model_modules": ["TR.Model.Backoff", "TR.Lemmas.Backoff", "TR.Mutants.BackoffCapAfter"],
         "lean_files": ["TR.Model.Backoff", "TR.Lemmas.Backoff", "TR.Mutants.BackoffCapAfter"],
         "sizes": (400, 6000), "drift_factor": 3,
         "rule": "seeded cases, each one configuration (kind exp/rand/retry_policy/retry_policy_rand/policy_exp/policy_rand/policy_exp_of/policy_rand_of/"
-                "policy_custom/fixed/policy_fixed/policy_none; 60 % of the builder-made ones given by their setter chain `chain=` — both orders of "
+                "policy_custom/fixed/policy_fixed/policy_none; 4 % with an initial interval of Duration::MAX / around 2^63..2^64 s; 60 % of the builder-made ones given by their setter chain `chain=` — both orders of "
                 "multiplier / max_interval, default multiplier left out, 1..3 overridden or repeated setters anywhere — with multipliers below 2 "
                 "favoured, caps within 1 ns of an uncapped value, and attempts around the first capped attempt of the intended and of every stale "
                 "combination of settings seen along the chain; 10 % asked through a clone; initial 0, "
